@@ -293,6 +293,17 @@ def tier_and_seed(argv):
 # --------------------------------------------------------------------------- generic check driver
 
 def run_check(spec, argv):
+    """Exit protocol wrapper: any unexpected exception of the machinery itself is an inconclusive run (exit 2), never exit 1."""
+    try:
+        return _run_check(spec, argv)
+    except (Unsupported, Exception) as e:
+        tb = traceback.format_exc().strip().splitlines()
+        print('INCONCLUSIVE property=%s internal error: %r' % (spec.PROP, e))
+        print('  ' + ' <- '.join(l.strip() for l in tb[-8:] if l.strip().startswith('File'))[:900])
+        return 2
+
+
+def _run_check(spec, argv):
     """Drive one property check.  `spec` is a module providing PROP, shapes(tier, seed),
     run_shape(prog, shape, tier, seed, res), conformance(prog, rp, seed, tier) -> (n, mismatches),
     replay_finding(rp, finding) -> (reproduced, detail), describe(finding), bounds(tier), OUTSIDE,
